@@ -206,14 +206,18 @@ impl LruOutboundAliasResolver {
             };
         }
 
-        let mut alias_value : u16 = (self.cache.len() + 1) as u16;
-        if alias_value > self.current_maximum_alias_value {
-            if let Some((_, recycled_alias)) = self.cache.peek_lru() {
-                alias_value = *recycled_alias;
+        // compared before narrowing: with 65535 aliases in use the next value does not fit a u16
+        let next_alias_value = self.cache.len() + 1;
+        let alias_value : u16 =
+            if next_alias_value > self.current_maximum_alias_value as usize {
+                if let Some((_, recycled_alias)) = self.cache.peek_lru() {
+                    *recycled_alias
+                } else {
+                    panic!("Illegal state in LRU outbound topic alias resolver")
+                }
             } else {
-                panic!("Illegal state in LRU outbound topic alias resolver")
-            }
-        }
+                next_alias_value as u16
+            };
 
         OutboundAliasResolution{
             skip_topic: false,
